@@ -131,21 +131,24 @@ class _Twin(ast.NodeTransformer):
                 nm = f"{t.value.id}.{t.attr}"
                 node.value = self.site(nm, "attr", node.value, node)
                 return node
-            # subscript: the reported name contains the evaluated index; evaluate it once
+            # subscript: the reported name contains the evaluated index; evaluate the value, then
+            # the index (Python's order), once each
             tmp = f"_pv_idx{self.sid}"
+            tmpv = f"_pv_val{self.sid}"
+            prev = ast.Assign(targets=[ast.Name(id=tmpv, ctx=ast.Store())], value=node.value, lineno=0)
             pre = ast.Assign(targets=[ast.Name(id=tmp, ctx=ast.Store())], value=t.slice, lineno=0)
             self.sid += 1
             self.sites.append((self.sid, t.value.id + "[..]", "index", node.lineno))
             val = ast.Call(
                 func=ast.Name(id="SITE_INDEX", ctx=ast.Load()),
-                args=[ast.Constant(self.sid), ast.Constant(t.value.id), ast.Name(id=tmp, ctx=ast.Load()), node.value],
+                args=[ast.Constant(self.sid), ast.Constant(t.value.id), ast.Name(id=tmp, ctx=ast.Load()), ast.Name(id=tmpv, ctx=ast.Load())],
                 keywords=[],
             )
             new = ast.Assign(
                 targets=[ast.Subscript(value=t.value, slice=ast.Name(id=tmp, ctx=ast.Load()), ctx=ast.Store())],
                 value=val, lineno=0,
             )
-            return [pre, new]
+            return [prev, pre, new]
         form = "chain" if len(node.targets) > 1 else ("assign" if isinstance(node.targets[0], ast.Name) else "unpack")
         for t in node.targets:
             for nm in self.target_names(t):
